@@ -64,7 +64,7 @@ theorem inv_frame (b : Base) (st st' : State) (h : Inv b st)
   · intro j s' hj; obtain ⟨s, hs, _, _, _, h4, h5⟩ := hscn j s' hj; rw [h4, h5]; exact noShare j s hs
 
 /-- The invariant is preserved by every operation (given that clones own their points table). -/
-theorem inv_step (c : Cfg) (hc : c.cloneOwnsPoints = true) (hmo : c.mergeOwnsDict = true) (b : Base) (st : State) (op : Op)
+theorem inv_step (c : Cfg) (hc : c.cloneOwnsPoints = true) (hmo : c.mergeOwnsDict = true) (hrr : c.reregFreshClone = true) (b : Base) (st : State) (op : Op)
     (h : Inv b st) : Inv b (step c b st op) := by
   obtain ⟨nextPos, refLt, refInj, ptsOwn, elLt, elOk, basePts, baseEqs, baseEl, noShare⟩ := h
   cases op with
@@ -73,7 +73,7 @@ theorem inv_step (c : Cfg) (hc : c.cloneOwnsPoints = true) (hmo : c.mergeOwnsDic
       · exact ⟨nextPos, refLt, refInj, ptsOwn, elLt, elOk, basePts, baseEqs, baseEl, noShare⟩
       · exact ⟨nextPos, refLt, refInj, ptsOwn, elLt, elOk, basePts, baseEqs, baseEl, noShare⟩
   | add i m d =>
-      simp only [step]; split
+      simp only [step, reuseOf, hrr, ↓reduceIte]; split
       · exact ⟨nextPos, refLt, refInj, ptsOwn, elLt, elOk, basePts, baseEqs, baseEl, noShare⟩
       · have hne : (0 : Nat) ≠ st.next := by omega
         constructor <;> dsimp only
@@ -202,7 +202,7 @@ theorem deref_frame (st st' : State) (s : Scn) (hns : s.cShared = false ∧ s.pS
 
 /-- Every operation acts on slot `i`'s view exactly as on the scenario alone (and not at all when it
 is addressed to another slot or to the base model). -/
-theorem rel_step (c : Cfg) (hc : c.cloneOwnsPoints = true) (hmo : c.mergeOwnsDict = true) (b : Base) (st : State) (i : Nat) (ss : SoloSt)
+theorem rel_step (c : Cfg) (hc : c.cloneOwnsPoints = true) (hmo : c.mergeOwnsDict = true) (hrr : c.reregFreshClone = true) (b : Base) (st : State) (i : Nat) (ss : SoloSt)
     (op : Op) (hI : Inv b st) (hR : Rel st i ss) : Rel (step c b st op) i (soloStep b i ss op) := by
   obtain ⟨hm, hv⟩ := hR
   cases op with
@@ -221,7 +221,7 @@ theorem rel_step (c : Cfg) (hc : c.cloneOwnsPoints = true) (hmo : c.mergeOwnsDic
               congr 1
               exact deref_frame _ _ _ (hI.noShare _ _ hs) rfl rfl rfl rfl
   | add j m d =>
-      simp only [step, soloStep, ← hm]
+      simp only [step, soloStep, ← hm, reuseOf, hrr, ↓reduceIte]
       cases hmm : st.mgrs m with
       | none => simp only []; split <;> exact ⟨hm, hv⟩
       | some p =>
@@ -379,18 +379,18 @@ theorem rel_step (c : Cfg) (hc : c.cloneOwnsPoints = true) (hmo : c.mergeOwnsDic
           congr 1
           apply deref_frame _ _ _ (hI.noShare _ _ (by assumption)) <;> simp only [updFn] <;> try (first | rfl | rw [if_neg (by omega)])
 
-theorem run_rel (c : Cfg) (hc : c.cloneOwnsPoints = true) (hmo : c.mergeOwnsDict = true) (b : Base) (i : Nat) (ops : List Op) :
+theorem run_rel (c : Cfg) (hc : c.cloneOwnsPoints = true) (hmo : c.mergeOwnsDict = true) (hrr : c.reregFreshClone = true) (b : Base) (i : Nat) (ops : List Op) :
     ∀ (st : State) (ss : SoloSt), Inv b st → Rel st i ss →
       Inv b (ops.foldl (step c b) st) ∧ Rel (ops.foldl (step c b) st) i (ops.foldl (soloStep b i) ss) := by
   induction ops with
   | nil => intro st ss h1 h2; exact ⟨h1, h2⟩
   | cons op rest ih =>
       intro st ss h1 h2
-      exact ih _ _ (inv_step c hc hmo b st op h1) (rel_step c hc hmo b st i ss op h1 h2)
+      exact ih _ _ (inv_step c hc hmo hrr b st op h1) (rel_step c hc hmo hrr b st i ss op h1 h2)
 
-theorem inv_run (c : Cfg) (hc : c.cloneOwnsPoints = true) (hmo : c.mergeOwnsDict = true) (b : Base) (ops : List Op) :
+theorem inv_run (c : Cfg) (hc : c.cloneOwnsPoints = true) (hmo : c.mergeOwnsDict = true) (hrr : c.reregFreshClone = true) (b : Base) (ops : List Op) :
     Inv b (exec c b ops) :=
-  (run_rel c hc hmo b 0 ops _ _ (inv_init b) (rel_init b 0)).1
+  (run_rel c hc hmo hrr b 0 ops _ _ (inv_init b) (rel_init b 0)).1
 
 /-- does the operation concern slot `i` (manager registrations concern every slot: base values apply
 to every scenario of the manager) -/
@@ -418,13 +418,13 @@ theorem solo_filter (b : Base) (i : Nat) (ops : List Op) : ∀ ss : SoloSt,
       · simp [List.filter, h, ih]
 
 /-- the base model's memo cell: one generation per direct evaluation, each under the base model's own settings -/
-theorem hm0_step (c : Cfg) (b : Base) (st : State) (op : Op) (h : Inv b st) :
+theorem hm0_step (c : Cfg) (hrr : c.reregFreshClone = true) (b : Base) (st : State) (op : Op) (h : Inv b st) :
     (step c b st op).hm 0 = if isEvalBase op then st.hm 0 ++ [(b.eff, none)] else st.hm 0 := by
   have hnp := h.nextPos
   cases op with
   | regMgr m bc bp => simp only [step, isEvalBase]; split <;> rfl
   | add i m d =>
-      simp only [step, isEvalBase]; split
+      simp only [step, isEvalBase, reuseOf, hrr, ↓reduceIte]; split
       · rfl
       · simp [updFn]; omega
   | run i =>
@@ -453,14 +453,14 @@ theorem hm0_step (c : Cfg) (b : Base) (st : State) (op : Op) (h : Inv b st) :
   | evalBase =>
       simp [step, isEvalBase, updFn, baseEff, Base.eff, h.basePts, h.baseEqs, h.baseEl]
 
-theorem run_base (c : Cfg) (hc : c.cloneOwnsPoints = true) (hmo : c.mergeOwnsDict = true) (b : Base) (ops : List Op) :
+theorem run_base (c : Cfg) (hc : c.cloneOwnsPoints = true) (hmo : c.mergeOwnsDict = true) (hrr : c.reregFreshClone = true) (b : Base) (ops : List Op) :
     ∀ (st : State), Inv b st →
       (ops.foldl (step c b) st).hm 0 = st.hm 0 ++ (ops.filter isEvalBase).map (fun _ => (b.eff, none)) := by
   induction ops with
   | nil => intro st _; simp
   | cons op rest ih =>
       intro st h
-      rw [List.foldl_cons, ih _ (inv_step c hc hmo b st op h), hm0_step c b st op h]
+      rw [List.foldl_cons, ih _ (inv_step c hc hmo hrr b st op h), hm0_step c hrr b st op h]
       cases hop : isEvalBase op <;> simp [List.filter, hop]
 
 /-! ### The property -/
@@ -476,15 +476,15 @@ def C06_full (c : Cfg) : Prop :=
     (∀ i, view (exec c b ops) i = (soloExec b i (ops.filter (relevant i))).s) ∧
     baseView b (exec c b ops) = baseAlone b ops
 
-theorem C06_full_of_good (c : Cfg) (hc : c.cloneOwnsPoints = true) (hmo : c.mergeOwnsDict = true) : C06_full c := by
+theorem C06_full_of_good (c : Cfg) (hc : c.cloneOwnsPoints = true) (hmo : c.mergeOwnsDict = true) (hrr : c.reregFreshClone = true) : C06_full c := by
   intro b ops
   constructor
   · intro i
-    have h := (run_rel c hc hmo b i ops _ _ (inv_init b) (rel_init b i)).2.scn
+    have h := (run_rel c hc hmo hrr b i ops _ _ (inv_init b) (rel_init b i)).2.scn
     rw [soloExec, ← solo_filter]
     exact h
-  · have hI := inv_run c hc hmo b ops
-    have hm := run_base c hc hmo b ops _ (inv_init b)
+  · have hI := inv_run c hc hmo hrr b ops
+    have hm := run_base c hc hmo hrr b ops _ (inv_init b)
     simp only [baseView, baseAlone, baseEff, Base.eff]
     rw [show (exec c b ops).hm 0 = _ from hm]
     simp [hI.basePts, hI.baseEqs, hI.baseEl, State.init, Base.eff]
@@ -492,16 +492,16 @@ theorem C06_full_of_good (c : Cfg) (hc : c.cloneOwnsPoints = true) (hmo : c.merg
 /-- Results are a function of what a read sees, so they agree as well — whatever the numeric
 simulation `Sim` is. -/
 theorem C06_results {R : Type} (Sim : Solo → R) (c : Cfg) (hc : c.cloneOwnsPoints = true)
-    (hmo : c.mergeOwnsDict = true) (b : Base)
+    (hmo : c.mergeOwnsDict = true) (hrr : c.reregFreshClone = true) (b : Base)
     (ops : List Op) (i : Nat) :
     (view (exec c b ops) i).map Sim = ((soloExec b i (ops.filter (relevant i))).s).map Sim := by
-  rw [(C06_full_of_good c hc hmo b ops).1 i]
+  rw [(C06_full_of_good c hc hmo hrr b ops).1 i]
 
 /-- What holds whatever `_elements` sharing is: no operation of the alphabet writes an arrayed-element
 table, so sharing it between clones does not break isolation. -/
-theorem C06_partial (c : Cfg) (hc : c.cloneOwnsPoints = true) (hmo : c.mergeOwnsDict = true) :
+theorem C06_partial (c : Cfg) (hc : c.cloneOwnsPoints = true) (hmo : c.mergeOwnsDict = true) (hrr : c.reregFreshClone = true) :
     C06_full { c with cloneOwnsElements := false } ∧ C06_full { c with cloneOwnsElements := true } :=
-  ⟨C06_full_of_good _ hc hmo, C06_full_of_good _ hc hmo⟩
+  ⟨C06_full_of_good _ hc hmo hrr, C06_full_of_good _ hc hmo hrr⟩
 
 def witnessBase : Base := { pts := [(0, 1)], rs := { start := 0, stop := 4, dt := 1 }, elems := 9 }
 def noDict : Dict := { consts := [], pts := [], start := none, stop := none, dt := none }
@@ -515,16 +515,16 @@ although nothing was ever set on scenario 1 (and the base model reads 7 as well)
 theorem C06_witness_shared_points (c : Cfg) (hc : c.cloneOwnsPoints = false) : ¬ C06_full c := by
   intro h
   have h1 := (h witnessBase witnessOps).1 1
-  obtain ⟨p, e, m⟩ := c
+  obtain ⟨p, e, m, rr⟩ := c
   simp only at hc; subst hc
   revert h1
-  cases e <;> cases m <;> decide
+  cases e <;> cases m <;> cases rr <;> decide
 
 theorem C06_witness_base (c : Cfg) (hc : c.cloneOwnsPoints = false) :
     baseView witnessBase (exec c witnessBase witnessOps) ≠ baseAlone witnessBase witnessOps := by
-  obtain ⟨p, e, m⟩ := c
+  obtain ⟨p, e, m, rr⟩ := c
   simp only at hc; subst hc
-  cases e <;> cases m <;> decide
+  cases e <;> cases m <;> cases rr <;> decide
 
 /-- register a manager WITH base constants, add scenarios 0 and 1 without own constants, re-parameterise
 scenario 0 (session / REST settings), run scenario 1. -/
@@ -541,18 +541,43 @@ def witnessLateOps : List Op :=
 theorem C06_witness_shared_base_dict (c : Cfg) (hm : c.mergeOwnsDict = false) : ¬ C06_full c := by
   intro h
   have h1 := (h witnessBase witnessMergeOps).1 1
-  obtain ⟨p, e, m⟩ := c
+  obtain ⟨p, e, m, rr⟩ := c
   simp only at hm; subst hm
   revert h1
-  cases p <;> cases e <;> decide
+  cases p <;> cases e <;> cases rr <;> decide
 
 /-- the same mechanism reaches scenarios registered later: their merge reads the manager's (rewritten) base
 dictionaries, constants and points alike. -/
 theorem C06_witness_late_registration (c : Cfg) (hm : c.mergeOwnsDict = false) :
     view (exec c witnessBase witnessLateOps) 1 ≠ (soloExec witnessBase 1 (witnessLateOps.filter (relevant 1))).s := by
-  obtain ⟨p, e, m⟩ := c
+  obtain ⟨p, e, m, rr⟩ := c
   simp only at hm; subst hm
-  cases p <;> cases e <;> decide
+  cases p <;> cases e <;> cases rr <;> decide
+
+/-- register scenario 0 WITH an own constant and own points, run it, register the same name again WITHOUT them, run. -/
+def witnessReregOps : List Op :=
+  [.regMgr 0 [] [], .add 0 0 { noDict with consts := [(5, 51)], pts := [(0, 7)], stop := some 9 }, .run 0, .add 0 0 noDict, .run 0]
+
+/-- Negation witness for the reused clone (`reregFreshClone = false`), whatever the other facts are: after the
+re-registration that lists nothing, scenario 0 still runs with constant 5 ↦ 51 (and, with own points tables, with
+graphical function 0 ↦ 7 and stop time 9): the previous clone was handed over after `reset_cache()` only. -/
+theorem C06_witness_reused_clone (c : Cfg) (h : c.reregFreshClone = false) : ¬ C06_full c := by
+  intro hf
+  have h1 := (hf witnessBase witnessReregOps).1 0
+  obtain ⟨p, e, m, rr⟩ := c
+  simp only at h; subst h
+  revert h1
+  cases p <;> cases e <;> cases m <;> decide
+
+/-- Re-registration under the same name is an operation of the theorem: with the good facts the view of a slot
+after `add i …` twice (with anything in between) is that of the LAST registration alone on a freshly built model —
+nothing of the earlier incarnation survives.  (Instance of `C06_full_of_good`, stated for the record on a history
+shape.) -/
+theorem C06_reregistration (c : Cfg) (hc : c.cloneOwnsPoints = true) (hmo : c.mergeOwnsDict = true)
+    (hrr : c.reregFreshClone = true) (b : Base) (pre mid post : List Op) (i m m' : Nat) (d d' : Dict) :
+    view (exec c b (pre ++ [Op.add i m d] ++ mid ++ [Op.add i m' d'] ++ post)) i =
+    (soloExec b i ((pre ++ [Op.add i m d] ++ mid ++ [Op.add i m' d'] ++ post).filter (relevant i))).s :=
+  (C06_full_of_good c hc hmo hrr b _).1 i
 
 /-! ### Wave 2 — what holds under the defective mechanisms
 
@@ -604,7 +629,7 @@ theorem noP_cases (a a' : Option Scn) (h : a.map Scn.noP = a'.map Scn.noP) :
           simp [h]
 
 theorem lock_step (c c' : Cfg) (h1 : c.cloneOwnsElements = c'.cloneOwnsElements)
-    (h2 : c.mergeOwnsDict = c'.mergeOwnsDict) (b : Base) (st st' : State) (op : Op) (hL : Lock st st') :
+    (h2 : c.mergeOwnsDict = c'.mergeOwnsDict) (hrr : c.reregFreshClone = true) (hrr' : c'.reregFreshClone = true) (b : Base) (st st' : State) (op : Op) (hL : Lock st st') :
     Lock (step c b st op) (step c' b st' op) := by
   obtain ⟨mgrs, scns, hp, he, hm, hel, next⟩ := st
   obtain ⟨mgrs', scns', hp', he', hm', hel', next'⟩ := st'
@@ -616,7 +641,7 @@ theorem lock_step (c c' : Cfg) (h1 : c.cloneOwnsElements = c'.cloneOwnsElements)
       simp only [step]
       cases mgrs m <;> exact ⟨rfl, rfl, rfl, rfl, hS, hM⟩
   | add i m d =>
-      simp only [step]
+      simp only [step, reuseOf, hrr, hrr', ↓reduceIte]
       cases hmm : mgrs m with
       | none => exact ⟨rfl, rfl, rfl, rfl, hS, hM⟩
       | some p =>
@@ -694,11 +719,11 @@ theorem lock_step (c c' : Cfg) (h1 : c.cloneOwnsElements = c'.cloneOwnsElements)
       · exact hM r
 
 theorem lock_run (c c' : Cfg) (h1 : c.cloneOwnsElements = c'.cloneOwnsElements)
-    (h2 : c.mergeOwnsDict = c'.mergeOwnsDict) (b : Base) (ops : List Op) :
+    (h2 : c.mergeOwnsDict = c'.mergeOwnsDict) (hrr : c.reregFreshClone = true) (hrr' : c'.reregFreshClone = true) (b : Base) (ops : List Op) :
     ∀ st st', Lock st st' → Lock (ops.foldl (step c b) st) (ops.foldl (step c' b) st') := by
   induction ops with
   | nil => intro st st' h; exact h
-  | cons op rest ih => intro st st' h; exact ih _ _ (lock_step c c' h1 h2 b st st' op h)
+  | cons op rest ih => intro st st' h; exact ih _ _ (lock_step c c' h1 h2 hrr hrr' b st st' op h)
 
 /-- in lockstep, the two machines show the same view of every slot up to the points table -/
 theorem view_erase_of_lock (st st' : State) (i : Nat) (hL : Lock st st') :
@@ -718,11 +743,11 @@ theorem base_erase_of_lock (b : Base) (st st' : State) (hL : Lock st st') :
 points table — scenario-level constants / points / run specs, the clone's equation overrides (`change_equation`
 rebinds per-clone `equations`), its run specs, live flag, and every memo generation up to its points component —
 equals that of the scenario alone; same for the base model. -/
-theorem C06_partial_consts (c : Cfg) (hmo : c.mergeOwnsDict = true) (b : Base) (ops : List Op) :
+theorem C06_partial_consts (c : Cfg) (hmo : c.mergeOwnsDict = true) (hrr : c.reregFreshClone = true) (b : Base) (ops : List Op) :
     (∀ i, (view (exec c b ops) i).map Solo.erase = ((soloExec b i (ops.filter (relevant i))).s).map Solo.erase) ∧
     (baseView b (exec c b ops)).erase = (baseAlone b ops).erase := by
-  have hL := lock_run c { c with cloneOwnsPoints := true } rfl rfl b ops _ _ (lock_refl (State.init b))
-  have hG := C06_full_of_good { c with cloneOwnsPoints := true } rfl hmo b ops
+  have hL := lock_run c { c with cloneOwnsPoints := true } rfl rfl hrr hrr b ops _ _ (lock_refl (State.init b))
+  have hG := C06_full_of_good { c with cloneOwnsPoints := true } rfl hmo hrr b ops
   constructor
   · intro i
     rw [← hG.1 i]
@@ -748,7 +773,7 @@ structure PF (b : Base) (st : State) : Prop where
 theorem pf_init (b : Base) : PF b (State.init b) := by
   constructor <;> simp [State.init]
 
-theorem pf_step (c : Cfg) (hmo : c.mergeOwnsDict = true) (b : Base) (st : State) (op : Op)
+theorem pf_step (c : Cfg) (hmo : c.mergeOwnsDict = true) (hrr : c.reregFreshClone = true) (b : Base) (st : State) (op : Op)
     (hop : ptsFree op = true) (h : PF b st) : PF b (step c b st op) := by
   obtain ⟨hb, hmg, hsc, hme⟩ := h
   cases op with
@@ -767,7 +792,7 @@ theorem pf_step (c : Cfg) (hmo : c.mergeOwnsDict = true) (b : Base) (st : State)
           · exact hmg m' p hp
   | add i m d =>
       simp only [ptsFree, List.isEmpty_iff] at hop
-      simp only [step]
+      simp only [step, reuseOf, hrr, ↓reduceIte]
       cases hmm : st.mgrs m with
       | none => exact ⟨hb, hmg, hsc, hme⟩
       | some p =>
@@ -896,14 +921,14 @@ theorem pf_step (c : Cfg) (hmo : c.mergeOwnsDict = true) (b : Base) (st : State)
         · simp only [List.mem_singleton] at he; subst he; simpa [baseEff] using hb
       · exact hme r e he
 
-theorem pf_run (c : Cfg) (hmo : c.mergeOwnsDict = true) (b : Base) (ops : List Op)
+theorem pf_run (c : Cfg) (hmo : c.mergeOwnsDict = true) (hrr : c.reregFreshClone = true) (b : Base) (ops : List Op)
     (hpf : ∀ op ∈ ops, ptsFree op = true) : ∀ st, PF b st → PF b (ops.foldl (step c b) st) := by
   induction ops with
   | nil => intro st h; exact h
   | cons op rest ih =>
       intro st h
       exact ih (fun o ho => hpf o (List.mem_cons_of_mem _ ho)) _
-        (pf_step c hmo b st op (hpf op List.mem_cons_self) h)
+        (pf_step c hmo hrr b st op (hpf op List.mem_cons_self) h)
 
 theorem erase_inj (p : Store) : ∀ (l l' : List MemoEntry), l.map eraseEntry = l'.map eraseEntry →
     (∀ e ∈ l, e.1.pts = p) → (∀ e ∈ l', e.1.pts = p) → l = l' := by
@@ -944,14 +969,14 @@ theorem view_of_lock_pf (b : Base) (st st' : State) (i : Nat) (hL : Lock st st')
 in particular false): on every history in which no operation carries points (no base points, no scenario points,
 no points in session / REST / step settings) the full isolation statement holds — every slot looks exactly like
 the scenario alone, the base model as if no scenario had been registered. -/
-theorem C06_partial_nopoints (c : Cfg) (hmo : c.mergeOwnsDict = true) (b : Base) (ops : List Op)
+theorem C06_partial_nopoints (c : Cfg) (hmo : c.mergeOwnsDict = true) (hrr : c.reregFreshClone = true) (b : Base) (ops : List Op)
     (hpf : ∀ op ∈ ops, ptsFree op = true) :
     (∀ i, view (exec c b ops) i = (soloExec b i (ops.filter (relevant i))).s) ∧
     baseView b (exec c b ops) = baseAlone b ops := by
-  have hL := lock_run c { c with cloneOwnsPoints := true } rfl rfl b ops _ _ (lock_refl (State.init b))
-  have hP := pf_run c hmo b ops hpf _ (pf_init b)
-  have hP' := pf_run { c with cloneOwnsPoints := true } hmo b ops hpf _ (pf_init b)
-  have hG := C06_full_of_good { c with cloneOwnsPoints := true } rfl hmo b ops
+  have hL := lock_run c { c with cloneOwnsPoints := true } rfl rfl hrr hrr b ops _ _ (lock_refl (State.init b))
+  have hP := pf_run c hmo hrr b ops hpf _ (pf_init b)
+  have hP' := pf_run { c with cloneOwnsPoints := true } hmo hrr b ops hpf _ (pf_init b)
+  have hG := C06_full_of_good { c with cloneOwnsPoints := true } rfl hmo hrr b ops
   constructor
   · intro i
     rw [← hG.1 i]
@@ -970,7 +995,7 @@ structure NB (st : State) : Prop where
   mgr : ∀ m p, st.mgrs m = some p → p = ([], [])
   scn : ∀ i s, st.scns i = some s → s.cShared = false ∧ s.pShared = false
 
-theorem nb_step (c : Cfg) (b : Base) (st : State) (op : Op) (hop : baseFree op = true) (h : NB st) :
+theorem nb_step (c : Cfg) (hrr : c.reregFreshClone = true) (b : Base) (st : State) (op : Op) (hop : baseFree op = true) (h : NB st) :
     NB (step c b st op) ∧ step c b st op = step { c with mergeOwnsDict := true } b st op := by
   obtain ⟨hmg, hsc⟩ := h
   cases op with
@@ -989,7 +1014,7 @@ theorem nb_step (c : Cfg) (b : Base) (st : State) (op : Op) (hop : baseFree op =
           · cases hp; rfl
           · exact hmg m' p hp
   | add i m d =>
-      simp only [step]
+      simp only [step, reuseOf, hrr, ↓reduceIte]
       cases hmm : st.mgrs m with
       | none => exact ⟨⟨hmg, hsc⟩, rfl⟩
       | some p =>
@@ -1063,31 +1088,31 @@ theorem nb_step (c : Cfg) (b : Base) (st : State) (op : Op) (hop : baseFree op =
             · exact hsc k s' hk
   | evalBase => exact ⟨⟨hmg, hsc⟩, rfl⟩
 
-theorem nb_run (c : Cfg) (b : Base) (ops : List Op) (hnb : ∀ op ∈ ops, baseFree op = true) :
+theorem nb_run (c : Cfg) (hrr : c.reregFreshClone = true) (b : Base) (ops : List Op) (hnb : ∀ op ∈ ops, baseFree op = true) :
     ∀ st, NB st → ops.foldl (step c b) st = ops.foldl (step { c with mergeOwnsDict := true } b) st := by
   induction ops with
   | nil => intro st _; rfl
   | cons op rest ih =>
       intro st h
-      have hs := nb_step c b st op (hnb op List.mem_cons_self) h
+      have hs := nb_step c hrr b st op (hnb op List.mem_cons_self) h
       rw [List.foldl_cons, List.foldl_cons, ← hs.2]
       exact ih (fun o ho => hnb o (List.mem_cons_of_mem _ ho)) _ hs.1
 
 /-- What holds whatever the merge of base values does (`mergeOwnsDict` arbitrary): on histories whose managers
 carry no base constants / base points nothing is ever shared, and the full isolation statement holds. -/
-theorem C06_partial_nobase (c : Cfg) (hc : c.cloneOwnsPoints = true) (b : Base) (ops : List Op)
+theorem C06_partial_nobase (c : Cfg) (hc : c.cloneOwnsPoints = true) (hrr : c.reregFreshClone = true) (b : Base) (ops : List Op)
     (hnb : ∀ op ∈ ops, baseFree op = true) :
     (∀ i, view (exec c b ops) i = (soloExec b i (ops.filter (relevant i))).s) ∧
     baseView b (exec c b ops) = baseAlone b ops := by
   have he : exec c b ops = exec { c with mergeOwnsDict := true } b ops :=
-    nb_run c b ops hnb _ ⟨by simp [State.init], by simp [State.init]⟩
+    nb_run c hrr b ops hnb _ ⟨by simp [State.init], by simp [State.init]⟩
   rw [he]
-  exact C06_full_of_good { c with mergeOwnsDict := true } hc rfl b ops
+  exact C06_full_of_good { c with mergeOwnsDict := true } hc rfl hrr b ops
 
 /-- Non-vacuity: on a history using every operation kind, two managers with base constants / base
 points, three scenarios, the shared machine's view of slot 1 is a concrete non-trivial state. -/
 example :
-    (view (exec ⟨true, false, true⟩ witnessBase
+    (view (exec ⟨true, false, true, true⟩ witnessBase
       [.regMgr 0 [(5, 50)] [(1, 11)], .regMgr 1 [] [], .add 0 0 noDict, .add 1 0 { noDict with consts := [(5, 51)], stop := some 8 },
        .add 2 1 noDict, .run 0, .configure 1 { noDict with pts := [(0, 3)] }, .reset 1, .step 1 { noDict with consts := [(6, 60)] } 2,
        .step 0 { noDict with pts := [(0, 7)] } 2, .evalBase, .run 2]) 1).map (fun s => (s.meqs, s.mpts, s.mrs.stop, s.memo.length))
@@ -1097,7 +1122,7 @@ example :
 table on which slot 1 is a concrete non-trivial state (its own base constant, the base model's table). -/
 example :
     (∀ op ∈ witnessMergeOps, ptsFree op = true) ∧
-    (view (exec ⟨false, false, true⟩ witnessBase witnessMergeOps) 1).map (fun s => (s.consts, s.meqs, s.mpts, s.memo.length))
+    (view (exec ⟨false, false, true, true⟩ witnessBase witnessMergeOps) 1).map (fun s => (s.consts, s.meqs, s.mpts, s.memo.length))
       = some ([(5, 50)], [(5, 50)], [(0, 1)], 1) := by decide
 
 #print axioms C06_full_of_good
@@ -1107,6 +1132,8 @@ example :
 #print axioms C06_witness_base
 #print axioms C06_witness_shared_base_dict
 #print axioms C06_witness_late_registration
+#print axioms C06_witness_reused_clone
+#print axioms C06_reregistration
 #print axioms C06_partial_consts
 #print axioms C06_partial_nopoints
 #print axioms C06_partial_nobase
